@@ -291,6 +291,23 @@ func replayXObj(v structform.ExtVisitor, e *Event) error {
 	panic("harness: unknown xobj family " + e.Ty)
 }
 
+// topLevelDone tracks nesting over replayed events and reports when a
+// top-level value has just been completed.
+type topLevelDone struct{ depth int }
+
+func (t *topLevelDone) after(e *Event) bool {
+	switch e.K {
+	case "arrS", "objS":
+		t.depth++
+		return false
+	case "arrE", "objE":
+		t.depth--
+	case "key":
+		return false
+	}
+	return t.depth == 0
+}
+
 // sink is the io.Writer behind an encoder. It records every Write
 // separately and can be told to fail from the k-th write on.
 type sink struct {
@@ -327,6 +344,7 @@ func runEncode(c *Case, tr *Trace, parse bool) {
 	sk := &sink{failAt: c.Fault}
 	enc := api.newVisitor(sk, c.Opts)
 	failed := false
+	var top topLevelDone
 	for i := range c.Stream {
 		err := replayEvent(enc, &c.Stream[i])
 		cl, msg := errClass(err)
@@ -334,6 +352,10 @@ func runEncode(c *Case, tr *Trace, parse bool) {
 		if err != nil {
 			failed = true
 			break
+		}
+		if top.after(&c.Stream[i]) && c.Fmt == "json" {
+			// JSON texts of a stream are separated by the user (JSON lines)
+			sk.all = append(sk.all, '\n')
 		}
 	}
 	tr.Out = bytesToInts(sk.all)
@@ -392,5 +414,135 @@ func runTranscode(c *Case, tr *Trace) {
 	}
 	for _, t := range tabs {
 		tr.NumTab = append(tr.NumTab, numTabFor(t)...)
+	}
+}
+
+// ---------------------------------------------------------------- kind "extcmp" (C10)
+
+func init() { extraKinds["extcmp"] = runExtCmp }
+
+// expandEvents is the driver-side expansion of extended events into basic
+// ones (the specification checks it against SFEvents!ExpandAll).
+func expandEvents(in []Event) []Event {
+	var out []Event
+	for _, e := range in {
+		switch e.K {
+		case "xarr", "xobj":
+			fam := e.Ty
+			elemTy := fam
+			if fam == "bytes" {
+				elemTy = "byte"
+			}
+			kind := "int"
+			switch fam {
+			case "bool", "str", "f32", "f64":
+				kind = fam
+			}
+			start := newEv("arrS", "arrS", nil)
+			if e.K == "xobj" {
+				start = newEv("objS", "objS", nil)
+			}
+			start.Len = len(e.E)
+			start.Bt = elemTy
+			out = append(out, start)
+			for _, x := range e.E {
+				if e.K == "xobj" {
+					out = append(out, newEv("key", "key", x.Key))
+				}
+				ev := newEv(kind, elemTy, x.V)
+				ev.I, ev.S = x.I, x.S
+				out = append(out, ev)
+			}
+			if e.K == "xobj" {
+				out = append(out, newEv("objE", "objE", nil))
+			} else {
+				out = append(out, newEv("arrE", "arrE", nil))
+			}
+		case "str":
+			c := e
+			c.Ty = "str"
+			out = append(out, c)
+		case "key":
+			c := e
+			c.Ty = "key"
+			out = append(out, c)
+		default:
+			out = append(out, e)
+		}
+	}
+	return out
+}
+
+// runExtCmp drives a consumer twice: with the stream as given (extended
+// events, by-reference strings) and with its expansion into basic events.
+// consumer: json | ubjson | cborl (real encoders) or plain (a plain Visitor
+// behind EnsureExtVisitor, i.e. the adapters of array.go/map.go/string.go).
+func runExtCmp(c *Case, tr *Trace) {
+	consumer := c.Sub["consumer"].(string)
+	streamB := expandEvents(c.Stream)
+	type result struct {
+		out   []byte
+		ev    []Event
+		deps  [][]int
+		errAt int
+		msg   string
+	}
+	run := func(stream []Event) result {
+		var r result
+		var v structform.ExtVisitor
+		var dep func() []int
+		var sk *sink
+		var rec *Recorder
+		if consumer == "plain" {
+			rec = &Recorder{}
+			v = structform.EnsureExtVisitor(rec)
+			dep = func() []int { return []int{} }
+		} else {
+			sk = &sink{}
+			enc := formats[consumer].newVisitor(sk, c.Opts)
+			v = enc
+			dep = func() []int { return depthsOf(enc) }
+		}
+		var top topLevelDone
+		for i := range stream {
+			if err := replayEvent(v, &stream[i]); err != nil {
+				r.errAt = i + 1
+				r.msg = err.Error()
+				break
+			}
+			r.deps = append(r.deps, dep())
+			if top.after(&stream[i]) && consumer == "json" {
+				sk.all = append(sk.all, '\n')
+			}
+		}
+		if sk != nil {
+			r.out = sk.all
+		}
+		if rec != nil {
+			r.ev = rec.Events
+		}
+		return r
+	}
+	a := run(c.Stream)
+	b := run(streamB)
+	last := func(d [][]int) []int {
+		if len(d) == 0 {
+			return []int{}
+		}
+		return d[len(d)-1]
+	}
+	evs := func(e []Event) []Event {
+		if e == nil {
+			return []Event{}
+		}
+		return e
+	}
+	tr.Out = bytesToInts(a.out)
+	tr.Extra = map[string]interface{}{
+		"streamB": streamB, "outB": bytesToInts(b.out), "evA": evs(a.ev), "evB": evs(b.ev),
+		"depA": last(a.deps), "depB": last(b.deps), "errA": a.errAt, "errB": b.errAt, "msgA": a.msg, "msgB": b.msg,
+	}
+	if consumer == "json" {
+		tr.NumTab = append(numTabFor(a.out), numTabFor(b.out)...)
 	}
 }
